@@ -32,7 +32,7 @@ func runC08(p *Prog, r *Report) {
 	r.Min("C08.R3", 8)
 	// R1: the probe worker = function with a loop that calls Scanner.Scan
 	var workers []*ssa.Function
-	for _, fn := range p.FuncsCalling(func(c *ssa.CallCommon) bool { return IsCallTo(c, fnScannerScan) }) {
+	for _, fn := range p.LoopFuncsCalling(func(c *ssa.CallCommon) bool { return IsCallTo(c, fnScannerScan) }) {
 		if len(LoopHeaders(fn)) > 0 {
 			workers = append(workers, fn)
 		}
@@ -64,7 +64,7 @@ func checkWorker(p *Prog, r *Report, fn *ssa.Function) {
 		return
 	}
 	L := heads[0]
-	fp := Paths(fn)
+	fp := PathsInl(fn)
 	// worker parameters by type
 	var errc ssa.Value
 	for _, prm := range fn.Params {
@@ -196,7 +196,7 @@ func checkEngineStart(p *Prog, r *Report, worker *ssa.Function) {
 	}
 	pos := p.Pos(spawner.Pos())
 	name := FuncName(spawner)
-	fp := Paths(spawner)
+	fp := PathsInl(spawner)
 	// which WaitGroup is passed to the worker
 	var wgArg ssa.Value
 	for _, a := range goInstr.Call.Args {
@@ -287,7 +287,7 @@ func checkEngineStart(p *Prog, r *Report, worker *ssa.Function) {
 	// worker count provenance: field set by an option from the CLI
 	// early-error path of the parent (Start)
 	if parent != spawner {
-		pp := Paths(parent)
+		pp := PathsInl(parent)
 		okEarly, seen := true, false
 		for _, s := range pp.Segs {
 			hasGo := false
@@ -377,7 +377,7 @@ func checkResultChan(p *Prog, r *Report) {
 		name := FuncName(put)
 		pos := p.Pos(put.Pos())
 		gs := false
-		fp := Paths(put)
+		fp := PathsInl(put)
 		okAll := len(fp.Headers) == 0
 		sent := 0
 		for _, s := range fp.Segs {
@@ -413,7 +413,7 @@ func checkResultChan(p *Prog, r *Report) {
 				r.Undecided("C08.R3", FuncName(g), p.Pos(g.Pos()), "copier is one loop", fmt.Sprint(len(heads)))
 				continue
 			}
-			fp := Paths(g)
+			fp := PathsInl(g)
 			i := 0
 			for _, s := range fp.From(heads[0]) {
 				if s.IsSelectPanicTail() {
@@ -472,7 +472,7 @@ func checkLogResults(p *Prog, r *Report, rule string) {
 			continue
 		}
 		L := heads[0]
-		fp := Paths(fn)
+		fp := PathsInl(fn)
 		i := 0
 		for _, s := range fp.From(L) {
 			if s.IsSelectPanicTail() {
